@@ -72,6 +72,14 @@ Theorem C13_series_unique (A S T : fps K) (M : nat) : A O <> 0 ->
 Proof. exact (conv_cancel_upto K A S T M). Qed.
 
 (* ---- DFT ---------------------------------------------------------------- *)
+(* telescoping principle behind the n**p closed forms of termXq, and the q -> q a rule of "* a**n" *)
+Theorem C13_tele_sum (q : K) (l : nat) (A : K) (B T : nat -> K) :
+  A - q * B l = T l -> (forall u, B u - q * B (S u) = T (S u)) ->
+  forall len, sumn (S len) (fun i => T (l + i)%nat * pw q (l + i)) = pw q l * A - pw q (l + len + 1) * B (l + len)%nat.
+Proof. exact (tele_sum K q l A B T). Qed.
+Theorem C13_sum_scale_q (a q : K) (x : nat -> K) (n : nat) :
+  sumn n (fun i => pw a i * x i * pw q i) = sumn n (fun i => x i * pw (q * a) i).
+Proof. exact (sum_scale_q K a q x n). Qed.
 Section DFTprops.
 Variable W : K.
 Variable N : nat.
@@ -159,6 +167,8 @@ Print Assumptions C13_zic_from_first_samples.
 Print Assumptions C13_lfilter_ref_de.
 Print Assumptions C13_convolve_ref_fir.
 Print Assumptions C13_series_unique.
+Print Assumptions C13_tele_sum.
+Print Assumptions C13_sum_scale_q.
 Print Assumptions C13_dft_def.
 Print Assumptions C13_idft_dft.
 Print Assumptions C13_dft_idft.
